@@ -155,3 +155,130 @@ TRUSTED_BASE = ['A7 table insertion wrappers add_ip_address/... return an index 
                 'A4/A5/A6 as in the item layer; std::vector::push_back appends a copy (captured as ghost "last pushed value")',
                 'storage hint bit assignment from RFC 8618 section 7.3.1.1.1 (spec/rfc8618_maps.py)', 'cdns2c lowering; CBMC 6.11 dfcc; cadical']
 ASSUMPTIONS = ['array sizes < 2^56']
+
+# ---------------------------------------------------------------- address event counts
+OH = '$this->m_block_parameters.storage_parameters.storage_hints.other_data_hints'
+EXTRA2 = EXTRA + '''
+static inline _Bool opt_Timestamp__lt_val(struct opt_Timestamp *a, struct Timestamp *b) { return !a->has || Timestamp__op_lt(&a->val, b); }
+'''
+GH_A = [('unsigned long', 'NA0', '$this->m_address_event_counts.n'), ('_Bool', 'PR0', 'umap_present'),
+        ('unsigned long', 'NQ0', '$this->m_query_responses.n'), ('unsigned long', 'NM0', '$this->m_malformed_messages.n'),
+        ('unsigned long', 'ES0', '$this->m_block_preamble.earliest_time.m_secs'), ('unsigned long', 'ET0', '$this->m_block_preamble.earliest_time.m_ticks')]
+AEC_COMMON = '''
+__CPROVER_requires(__CPROVER_w_ok($this, sizeof(*$this)) && __CPROVER_r_ok($1, sizeof(*$1)) && __CPROVER_r_ok($2, sizeof(*$2)) && g_exc == 0)
+__CPROVER_requires($this->m_query_responses.n < (1UL << 56) && $this->m_malformed_messages.n < (1UL << 56) && $this->m_address_event_counts.n < (1UL << 56))
+__CPROVER_requires(g_cnt_ip == 0)
+__CPROVER_assigns($this->m_block_statistics, $this->m_address_event_counts.n, umap_AddressEventCount_u64__cur, umap_present, ''' + CNTS + ''', g_exc)
+__CPROVER_ensures(g_exc == 0)
+__CPROVER_ensures(!''' + bit(OH, 1) + ''' ==> ($ret == 0 && $this->m_address_event_counts.n == @NA0 && g_cnt_ip == 0))
+__CPROVER_ensures(''' + bit(OH, 1) + ''' ==> ($ret == FULL($this) && $this->m_address_event_counts.n == @NA0 + (@PR0 ? 0UL : 1UL) && umap_present))
+__CPROVER_ensures((''' + bit(OH, 1) + ''' && $2->has) ==> $this->m_block_statistics.has)
+__CPROVER_ensures($this->m_query_responses.n == @NQ0 && $this->m_malformed_messages.n == @NM0)
+'''
+AEC_GEN = AEC_COMMON + '''
+__CPROVER_ensures(''' + bit(OH, 1) + ''' ==> (g_cnt_ip == 1 && umap_AddressEventCount_u64__cur.first.ae_type == $1->ae_type))
+__CPROVER_ensures(''' + bit(OH, 1) + ''' ==> ((umap_AddressEventCount_u64__cur.first.ae_code.has != 0) == ($1->ae_code.has != 0) && (umap_AddressEventCount_u64__cur.first.ae_transport_flags.has != 0) == ($1->ae_transport_flags.has != 0)))
+__CPROVER_ensures((''' + bit(OH, 1) + ''' && !@PR0) ==> umap_AddressEventCount_u64__cur.second == 1)
+'''
+AEC_DIR = AEC_COMMON + '''
+__CPROVER_ensures(g_cnt_ip == 0)
+__CPROVER_ensures(''' + bit(OH, 1) + ''' ==> (umap_AddressEventCount_u64__cur.first.ae_type == $1->ae_type && umap_AddressEventCount_u64__cur.first.ae_address_index == $1->ae_address_index))
+__CPROVER_ensures((''' + bit(OH, 1) + ''' && !@PR0) ==> umap_AddressEventCount_u64__cur.second == 1)
+'''
+ASTUBS = ['seq_[A-Za-z0-9_]+__(push_back|size)', 'umap_[A-Za-z0-9_]+__(size|find|index)', 'opt_[A-Za-z0-9_]+__value', 'opt_Timestamp__lt_val']
+for uid, sig, con, rec in [('add.aec_generic', 'bool (const CDNS::GenericAddressEventCount &, const boost::optional<BlockStatistics> &)', AEC_GEN, 'GenericAddressEventCount'),
+                           ('add.aec', 'bool (const CDNS::AddressEventCount &, const boost::optional<BlockStatistics> &)', AEC_DIR, 'AddressEventCount')]:
+    UNITS.append(Unit(uid, (BLK + 'add_address_event_count', sig), contract=con, prelude=P, pre_c=PRE_C, defines=['CAPTURE_PUSH'], extra_c=EXTRA2,
+                      gen_stubs=TABLE_STUBS, ghost=GH_A, auto_inline=AUTO, stubs=ASTUBS,
+                      setup=ADD_SETUP + '  static struct %s rec; static struct opt_BlockStatistics st;\n' % rec, args=['&obj', '&rec', '&st'],
+                      props=['C04', 'C12', 'C01'], timeout=900,
+                      note='stored only when the address-event hint bit is set (otherwise nothing changes); a repeated key leaves the number of '
+                           'entries unchanged and increments its count, a new key adds one entry with count 1; result is full()'))
+
+# ---------------------------------------------------------------- malformed messages
+PM = 'seq_MalformedMessage__last'
+MMD = 'g_last_mmd'
+MM_GEN = '''
+__CPROVER_requires(__CPROVER_w_ok($this, sizeof(*$this)) && __CPROVER_r_ok($1, sizeof(*$1)) && __CPROVER_r_ok($2, sizeof(*$2)) && g_exc == 0)
+__CPROVER_requires($this->m_query_responses.n < (1UL << 56) && $this->m_malformed_messages.n < (1UL << 56) && $this->m_address_event_counts.n < (1UL << 56))
+__CPROVER_requires(EARLIEST_INV($this) && ELEMS_NONEMPTY($this))
+__CPROVER_requires(g_cnt_ip == 0 && g_cnt_mmd == 0 && seq_MalformedMessage__pushes == 0)
+__CPROVER_assigns($this->m_block_preamble.earliest_time, $this->m_block_statistics, $this->m_malformed_messages.n, $this->m_malformed_messages.wv, ''' + CNTS + ''', seq_MalformedMessage__last, seq_MalformedMessage__pushes, g_exc)
+__CPROVER_ensures(g_exc == 0)
+__CPROVER_ensures(EARLIEST_INV($this) && ELEMS_NONEMPTY($this))
+__CPROVER_ensures(!''' + bit(OH, 0) + ''' ==> ($ret == 0 && seq_MalformedMessage__pushes == 0 && g_cnt_ip == 0 && g_cnt_mmd == 0 && $this->m_block_preamble.earliest_time.m_secs == @ES0 && $this->m_block_preamble.earliest_time.m_ticks == @ET0))
+__CPROVER_ensures(''' + bit(OH, 0) + ''' ==> $ret == FULL($this))
+__CPROVER_ensures(seq_MalformedMessage__pushes <= 1 && $this->m_malformed_messages.n == @NM0 + seq_MalformedMessage__pushes && $this->m_query_responses.n == @NQ0 && $this->m_address_event_counts.n == @NA0)
+__CPROVER_ensures(''' + bit(OH, 0) + ''' ==> seq_MalformedMessage__pushes == (($1->ts.has || $1->client_ip.has || $1->client_port.has || $1->server_ip.has || $1->server_port.has || $1->mm_transport_flags.has || $1->mm_payload.has) ? 1UL : 0UL))
+__CPROVER_ensures(seq_MalformedMessage__pushes == 1 ==> (MM_NONEMPTY(&''' + PM + ''') && (''' + PM + '''.time_offset.has != 0) == ($1->ts.has != 0) && (''' + PM + '''.client_address_index.has != 0) == ($1->client_ip.has != 0) && (''' + PM + '''.client_port.has != 0) == ($1->client_port.has != 0)))
+__CPROVER_ensures((seq_MalformedMessage__pushes == 1 && $1->ts.has) ==> (''' + PM + '''.time_offset.val.m_secs == $1->ts.val.m_secs && ''' + PM + '''.time_offset.val.m_ticks == $1->ts.val.m_ticks))
+__CPROVER_ensures((seq_MalformedMessage__pushes == 1 && $1->client_port.has) ==> ''' + PM + '''.client_port.val == $1->client_port.val)
+__CPROVER_ensures(''' + bit(OH, 0) + ''' ==> g_cnt_mmd == (($1->server_ip.has || $1->server_port.has || $1->mm_transport_flags.has || $1->mm_payload.has) ? 1UL : 0UL))
+__CPROVER_ensures(seq_MalformedMessage__pushes == 1 ==> (''' + PM + '''.message_data_index.has != 0) == (g_cnt_mmd == 1))
+__CPROVER_ensures(g_cnt_mmd == 1 ==> ((''' + MMD + '''.server_address_index.has != 0) == ($1->server_ip.has != 0) && (''' + MMD + '''.server_port.has != 0) == ($1->server_port.has != 0) && (''' + MMD + '''.mm_transport_flags.has != 0) == ($1->mm_transport_flags.has != 0) && (''' + MMD + '''.mm_payload.has != 0) == ($1->mm_payload.has != 0)))
+__CPROVER_ensures((g_cnt_mmd == 1 && $1->mm_payload.has) ==> ''' + MMD + '''.mm_payload.val.id == $1->mm_payload.val.id)
+__CPROVER_ensures((g_cnt_mmd == 1 && $1->server_port.has) ==> ''' + MMD + '''.server_port.val == $1->server_port.val)
+__CPROVER_ensures(''' + bit(OH, 0) + ''' ==> g_cnt_ip == (unsigned long)($1->client_ip.has != 0) + (unsigned long)($1->server_ip.has != 0))
+__CPROVER_ensures((''' + bit(OH, 0) + ''' && $2->has) ==> $this->m_block_statistics.has)
+'''
+UNITS.append(Unit('add.mm_generic', (BLK + 'add_malformed_message', 'bool (const CDNS::GenericMalformedMessage &, const boost::optional<BlockStatistics> &)'),
+                  contract=MM_GEN, prelude=P, pre_c=PRE_C, defines=['CAPTURE_PUSH'], extra_c=EXTRA2, gen_stubs=TABLE_STUBS, ghost=GH_A,
+                  auto_inline=AUTO, stubs=ASTUBS, setup=ADD_SETUP + '  static struct GenericMalformedMessage rec; static struct opt_BlockStatistics st;\n',
+                  args=['&obj', '&rec', '&st'], props=['C04', 'C12', 'C17', 'C01', 'C02'], timeout=900,
+                  note='stored only when the malformed-message hint bit is set (otherwise nothing changes, not even the earliest time); all supplied '
+                       'members stored, message data added to its table iff any of its members is present; earliest-time invariant preserved'))
+
+# direct (already indexed) records
+DIRECT = '''
+__CPROVER_requires(__CPROVER_w_ok($this, sizeof(*$this)) && __CPROVER_r_ok($1, sizeof(*$1)) && __CPROVER_r_ok($2, sizeof(*$2)) && g_exc == 0)
+__CPROVER_requires($this->m_query_responses.n < (1UL << 56) && $this->m_malformed_messages.n < (1UL << 56) && $this->m_address_event_counts.n < (1UL << 56))
+__CPROVER_requires(EARLIEST_INV($this) && ELEMS_NONEMPTY($this))
+__CPROVER_requires(%(P)s__pushes == 0)
+__CPROVER_assigns($this->m_block_preamble.earliest_time, $this->m_block_statistics, $this->%(arr)s.n, $this->%(arr)s.wv, %(P)s__last, %(P)s__pushes, g_exc)
+__CPROVER_ensures(g_exc == 0)
+__CPROVER_ensures(EARLIEST_INV($this) && ELEMS_NONEMPTY($this))
+__CPROVER_ensures($ret == FULL($this))
+__CPROVER_ensures(%(P)s__pushes == (%(NE)s($1) ? 1UL : 0UL) && $this->%(arr)s.n == @%(N)s + %(P)s__pushes)
+__CPROVER_ensures((%(P)s__pushes == 1) ==> ((%(P)s__last.time_offset.has != 0) == ($1->time_offset.has != 0) && (%(P)s__last.client_port.has != 0) == ($1->client_port.has != 0)))
+__CPROVER_ensures((%(P)s__pushes == 1 && $1->time_offset.has) ==> (%(P)s__last.time_offset.val.m_secs == $1->time_offset.val.m_secs && %(P)s__last.time_offset.val.m_ticks == $1->time_offset.val.m_ticks))
+'''
+for uid, fn, sig, rec, d in [
+        ('add.qr', 'add_question_response_record', 'bool (const CDNS::QueryResponse &, const boost::optional<BlockStatistics> &)', 'QueryResponse',
+         {'P': 'seq_QueryResponse', 'arr': 'm_query_responses', 'NE': 'QR_NONEMPTY', 'N': 'NQ0'}),
+        ('add.mm', 'add_malformed_message', 'bool (const CDNS::MalformedMessage &, const boost::optional<BlockStatistics> &)', 'MalformedMessage',
+         {'P': 'seq_MalformedMessage', 'arr': 'm_malformed_messages', 'NE': 'MM_NONEMPTY', 'N': 'NM0'})]:
+    UNITS.append(Unit(uid, (BLK + fn, sig), contract=DIRECT % d, prelude=P, pre_c=PRE_C, defines=['CAPTURE_PUSH'], extra_c=EXTRA2, gen_stubs=TABLE_STUBS,
+                      ghost=GH_A, auto_inline=AUTO, stubs=ASTUBS, inline=[('Timestamp::operator<', None)], setup=ADD_SETUP + '  static struct %s rec; static struct opt_BlockStatistics st;\n' % rec,
+                      args=['&obj', '&rec', '&st'], props=['C12', 'C17', 'C02'], timeout=900,
+                      note='a directly built record is stored unchanged iff it has at least one member; earliest-time invariant preserved'))
+
+# ---------------------------------------------------------------- generic question / RR lists (loops)
+RRH = '$P0->m_block_parameters.storage_parameters.storage_hints.rr_hints'
+LIST_STUBS = [s for s in TABLE_STUBS if 'add_rr$' not in s[0]] + [
+    (r'^CdnsBlock__add_rr$', '  if (g_exc) return 0;\n'
+     '  __CPROVER_assert((' + RRH + ' & 1) || !$P1->ttl.has, "C04: RR stored without a ttl when the ttl hint is off");\n'
+     '  __CPROVER_assert((' + RRH + ' & 2) || !$P1->rdata_index.has, "C04: RR stored without rdata when the rdata hint is off");\n'
+     '  g_cnt_rr++; g_last_rr = *$P1; return nondet_index();')]
+LIST_C = '''
+__CPROVER_requires(__CPROVER_w_ok($this, sizeof(*$this)) && __CPROVER_r_ok($1, sizeof(*$1)) && g_exc == 0 && $1->n < (1UL << 56))
+__CPROVER_requires(g_cnt_name == 0 && g_cnt_ct == 0 && g_cnt_%(e)s == 0 && g_cnt_%(l)s == 0 && seq_u32__pushes == 0)
+__CPROVER_assigns(''' + CNTS + ''', seq_u32__last, seq_u32__pushes, seq_GenericResourceRecord__cur, g_exc)
+__CPROVER_ensures(g_exc == 0)
+__CPROVER_ensures(g_cnt_%(e)s == $1->n && g_cnt_ct == $1->n && seq_u32__pushes == $1->n && g_cnt_%(l)s == 1 && g_cnt_name >= $1->n && g_cnt_name <= 2 * $1->n)
+'''
+LIST_LOOP = '''
+  __CPROVER_assigns($L2, $L1, ''' + CNTS + ''', seq_u32__last, seq_u32__pushes, seq_GenericResourceRecord__cur, g_exc)
+  __CPROVER_loop_invariant($L2 <= $1->n && g_exc == 0 && g_cnt_%(e)s == $L2 && g_cnt_ct == $L2 && seq_u32__pushes == $L2 && $L1.n == $L2 && g_cnt_%(l)s == 0 && g_cnt_name >= $L2 && g_cnt_name <= 2 * $L2)
+  __CPROVER_decreases($1->n - $L2)
+'''
+for nm, e, l, skipnames in [('add_generic_qlist', 'q', 'ql', 0), ('add_generic_rrlist', 'rr', 'rl', 1)]:
+    d = {'e': e, 'l': l}
+    # locals: qlist: $L1 = list, $L2 = counter ; rrlist: $L1 = rr_hints (reference), $L2 = list, $L3 = counter
+    loop = LIST_LOOP % d
+    if nm == 'add_generic_rrlist':
+        loop = loop.replace('$L2', '$L9').replace('$L1', '$L2').replace('$L9', '$L3')
+    UNITS.append(Unit('add.' + nm[4:], (BLK + nm, None), contract=LIST_C % d, loops={1: loop}, prelude=P, pre_c=PRE_C, defines=['CAPTURE_PUSH'],
+                      extra_c=EXTRA2, gen_stubs=LIST_STUBS, auto_inline=AUTO, stubs=ASTUBS + ['seq_[A-Za-z0-9_]+__(at|empty)'],
+                      setup=ADD_SETUP + '  static struct seq_GenericResourceRecord lst;\n  __CPROVER_assume(lst.n < (1UL << 56));\n  seq_u32__pushes = 0;\n',
+                      args=['&obj', '&lst'], props=['C04', 'C01', 'C11'], timeout=900,
+                      note='one table entry per resource record, in order, any list length; RR members gated by the RR hints (asserted at every add_rr call)'))
